@@ -34,7 +34,7 @@ def thresholds(tier):
 def knobs_for(rng):
   return {"depth": rng.choice([0, 1, 1, 2]), "max_children": rng.choice([1, 2, 3]), "p_ff": rng.choice([0.1, 0.3]),
           "p_split": rng.choice([0.4, 0.7]), "p_struct": 0.35, "max_sigs": rng.choice([3, 5]), "expr_depth": 2,
-          "p_connect": rng.choice([0.2, 0.45]), "p_nested_field": rng.choice([0, 0.3]), "p_list_field": rng.choice([0, 0.3]), "p_constraints": 0.6, "p_annot": rng.choice([0, 0.3]), "p_branchy": rng.choice([0, 0.15]), "p_omit_bounds_blk": rng.choice([0, 0.5]), "p_expr_bounds_blk": rng.choice([0, 0.4]), "p_vsl": rng.choice([0, 0.3]), "p_vfunc": rng.choice([0, 0.5]), "p_func": rng.choice([0, 0.3]), "p_shadow": 0.3, "p_subclass": rng.choice([0, 0.5]), "p_callshapes": rng.choice([0, 0.4])}
+          "p_connect": rng.choice([0.2, 0.45]), "p_nested_field": rng.choice([0, 0.3]), "p_list_field": rng.choice([0, 0.3]), "p_constraints": 0.6, "p_annot": rng.choice([0, 0.3]), "p_branchy": rng.choice([0, 0.15]), "p_omit_bounds_blk": rng.choice([0, 0.5]), "p_expr_bounds_blk": rng.choice([0, 0.4]), "p_attr_bounds": 0.4, "p_vsl": rng.choice([0, 0.3]), "p_vfunc": rng.choice([0, 0.5]), "p_func": rng.choice([0, 0.3]), "p_shadow": 0.3, "p_subclass": rng.choice([0, 0.5]), "p_callshapes": rng.choice([0, 0.4])}
 
 
 CYCLE_SRC = '''
